@@ -7,7 +7,7 @@ ID = "C02"
 NEEDS_CLI = True
 THOROUGH_ROUNDS = 1
 RULE = ("op mn.seed <phrase> <passphrase>: all five phrase lengths, layout variants of the phrase (incl. exactly one separator of every white-space kind), passphrases: empty, ASCII, "
-        "precomposed/decomposed pairs, full-width/ASCII pairs, ligatures, Hangul, combining marks in non-canonical order, runs of 1..100 combining marks, astral plane; "
+        "precomposed/decomposed pairs, full-width/ASCII pairs, ligatures, Hangul, combining marks in non-canonical order, runs of 1..100 combining marks, long passphrases (exact byte lengths up to 100000 around buffer sizes, text that grows under NFKD), astral plane; "
         "every code point with an NFKD mapping or non-zero combining class alone between ASCII letters (all below U+0250, stratified sample above; thorough: all); code points restricted to those assigned in Unicode 14.0 (python unicodedata) — the crate ships Unicode 16 tables; "
         "NFKD-equivalent pairs must give equal seeds (extra check); the repo's four seed vectors; passphrases with leading/trailing (Unicode) white space; a sample of the pairs re-run through `export --password` (flag and environment) so that the wallet the commands build is covered too; "
         "non-trivial = distinct (words, passphrase); judge = BIP-39 PBKDF2 from the standard with the NFKD table of python's unicodedata")
@@ -117,6 +117,15 @@ def gen(rng, tier):
                 run = "\u0323" * k if style == "same" else "".join(rng.choice(MARKS) for _ in range(k))
                 pw = "Z" + base + run + "!"
                 cases.append(Case("mn.seed %s %s" % (hx(" ".join(ws12)), hx(pw)), tags=("mark-run", "marks:%d" % (k + (1 if base == "\u00e9" else 0)))))
+    # long passphrases: the salt has no length limit — ASCII of exact byte lengths around the sizes a buffer may have
+    # ("mnemonic" + passphrase crossing 128 / 256 / 512 / 1024 / 4096 / 65536 bytes), text that GROWS under NFKD (U+FDFA:
+    # 3 bytes -> 33), precomposed letters (2 -> 3 bytes), emoji, a long sentence
+    for n in (100, 119, 120, 121, 127, 128, 129, 247, 248, 249, 255, 256, 257, 300, 503, 504, 505, 1000, 1016, 1017, 4088, 4089, 65528, 65529, 100000):
+        pw = "".join(rng.choice("abcdefghijklmnopqrstuvwxyz ") for _ in range(n))
+        cases.append(Case("mn.seed %s %s" % (hx(" ".join(ws12)), hx(pw)), tags=("long-passphrase", "ascii")))
+    for pw in ["\ufdfa" * 14, "\ufdfa" * 3, "\u00e9" * 100, "\u00e9" * 83, "\U0001f600" * 70, "x" * 240 + "\u00e9" * 5, "\uff21" * 90, "\uff21" * 300,
+               " ".join(rng.choice(["correct", "horse", "battery", "staple", "caf\u00e9", "na\u00efve"]) for _ in range(45))]:
+        cases.append(Case("mn.seed %s %s" % (hx(" ".join(ws12)), hx(pw)), tags=("long-passphrase", "unicode")))
     # passphrases that begin / end with (Unicode) white space, or are nothing else: part of the salt like any other character
     for pw in ["TREZOR ", " TREZOR", " ", "  ", "\t", "pass\n", "\r\npass", "pass\u3000", "\u00a0pass", "\u2003x\u2003", "x\u200a", "\u0085y", "\u2028z", "\x0bq\x0c"]:
         cases.append(Case("mn.seed %s %s" % (hx(" ".join(ws12)), hx(pw)), tags=("edge-whitespace",)))
